@@ -1,5 +1,6 @@
 """C18 - resources merge with documented precedence; environment settings parse totally.
 Case generator and configuration."""
+from fractions import Fraction
 from tools.vlib import hx
 
 ID = "C18"
@@ -179,10 +180,7 @@ def gen_flt(rng, n):
     for _ in range(80 * n):
         m = rng.below(1 << rng.choice([1, 4, 10, 20, 24, 25, 30]))
         k = rng.below(12)
-        from fractions import Fraction
         q = Fraction(m, 1 << k)
-        num = q.numerator * (5 ** k if q.denominator > 1 else 1)
-        s = str(num)
         kk = 0
         d = q.denominator
         while d > 1:
